@@ -275,6 +275,21 @@ def c11(tier):
         progs = list(must)
         for k in sorted(strata):
             progs += rnd.sample(strata[k], min(len(strata[k]), 8))
+    # the converse is stated for P' obtained from an ACCEPTED P: the unmutated program of every mutant is replayed too
+    def base_key(pr):
+        return json.dumps(dict(pr, mut="none"), sort_keys=True)
+    bases = {base_key(p["prog"]): p for p in r.lines if p["prog"]["mut"] == "none"}
+    have = {json.dumps(p["prog"], sort_keys=True) for p in progs}
+    for p in list(progs):
+        if p["prog"]["mut"] != "none":
+            b = bases.get(base_key(p["prog"]))
+            if b is None:
+                raise Inconclusive("OplTypes.tla printed a mutant without its unmutated program")
+            k = json.dumps(b["prog"], sort_keys=True)
+            if k not in have:
+                have.add(k)
+                progs.append(b)
+    index_of = {json.dumps(p["prog"], sort_keys=True): i for i, p in enumerate(progs)}
     inp = {"typeprogs": [{"src": p["src"], "tuples": p["tuples"]} for p in progs], "progs": [], "lex": [], "texts": [], "raw": []}
     allrecs, crashers = run_surviving(binary, "opl", inp, timeout=2400)
     recs = {x["typeprog"]: x for x in allrecs if "typeprog" in x}
@@ -285,6 +300,7 @@ def c11(tier):
     dead = {c["i"] for c in crashers}
     known = {f["id"]: f for f in known_findings("C11")}
     drift = 0
+    outside = 0
     for i, p in enumerate(progs):
         ob = recs.get(i)
         if ob is None and (i in dead or lib.INCOMPLETE):
@@ -298,6 +314,12 @@ def c11(tier):
             continue
         errs = ob.get("errors") or []
         if p["prog"]["mut"] != "none":
+            bob = recs.get(index_of[base_key(p["prog"])])
+            if bob is None or bob.get("panic") or bob.get("errors"):
+                # the parser does not accept the unmutated program (e.g. a traverse() over a type that never reaches a plain
+                # namespace is refused whatever it names): the mutant is outside the property's quantifier
+                outside += 1
+                continue
             ck.nontrivial.add(i)
             if not errs:
                 ck.violation("a document with an undeclared reference (%s) is accepted" % p["prog"]["mut"], cid)
@@ -326,6 +348,7 @@ def c11(tier):
             raise Inconclusive("known finding %s did not reproduce: remove it from known_findings.json" % f["id"])
     ck.extra["programs"] = len(progs)
     ck.extra["acceptance_model_drift"] = drift
+    ck.extra["mutants_of_programs_the_parser_does_not_accept"] = outside
     ck.rule = ("programs over three namespaces enumerated by OplTypes.tla (type of the traversed relation, type of the group relation, which namespaces declare 'view', "
                "five permission bodies, seven single-reference mutations); mutants must be rejected at the offending token; accepted programs are loaded into a real server, "
                "relationships conforming to the declared types are written and every declared relation is checked on five objects for two subjects; non-trivial: mutants and accepted programs")
